@@ -889,6 +889,12 @@ fn run_case13(tpl: &Template, case: &Case13) -> Out13 {
     let case2 = case.clone();
     // ---- first life
     let (sub_id, last_id_before, wal_image, graceful_ok) = node.run(async |nd| {
+        // rows that exist before the subscription does: they enter its materialised rows through
+        // the initial query, not through its change log
+        let (st, _b, _bc) = nd
+            .write(vec![Statement::Simple("INSERT INTO p (id,v,g) VALUES (5,'pre',NULL)".into()), Statement::Simple("INSERT INTO c (id,p_id,w) VALUES (5,5,'pre')".into())], None)
+            .await;
+        assert_eq!(st, 200);
         let subs_path = nd.agent.config().db.subscriptions_path();
         let schema = nd.agent.schema().read().clone();
         let (handle, created) = nd.agent.subs_manager().get_or_insert(qsql, subs_path.as_path(), &schema, nd.agent.pool(), nd.tripwire.clone()).expect("create sub");
@@ -1106,11 +1112,16 @@ fn run_case13(tpl: &Template, case: &Case13) -> Out13 {
                 return viol;
             }
         };
+        let rowids_before: std::collections::BTreeSet<String> = read_sub("SELECT __corro_rowid FROM query".to_string()).into_iter().filter_map(|r| r.into_iter().next()).collect();
         let handles_before = klukai_types::spawn::PENDING_HANDLES.load(std::sync::atomic::Ordering::SeqCst);
         let (st, _b) = klukai_agent::api::public::api_v1_transactions(
             axum::Extension(agent.clone()),
             axum::extract::Query(klukai_agent::api::public::TimeoutParams { timeout: None }),
-            axum::extract::Json(vec![Statement::Simple("INSERT INTO p (id,v,g) VALUES (77,'new',NULL)".into()), Statement::Simple("INSERT INTO c (id,p_id,w) VALUES (77,77,'new')".into())]),
+            axum::extract::Json(vec![
+                Statement::Simple("UPDATE p SET v = 'post' WHERE id = 5".into()),
+                Statement::Simple("INSERT INTO p (id,v,g) VALUES (77,'new',NULL)".into()),
+                Statement::Simple("INSERT INTO c (id,p_id,w) VALUES (77,77,'new')".into()),
+            ]),
         )
         .await;
         if !st.is_success() {
@@ -1147,17 +1158,58 @@ fn run_case13(tpl: &Template, case: &Case13) -> Out13 {
         // the event goes from the matcher through the forwarder to the broadcast channel: wait for it
         // (up to 5 s; its absence after that is the violation below)
         let mut first_new = None;
+        let mut new_events: Vec<(String, u64)> = vec![]; // (kind, row id)
         let wait_start = Instant::now();
         while first_new.is_none() && wait_start.elapsed() < Duration::from_secs(5) {
-            while let Ok((_bytes, meta)) = brx.try_recv() {
+            while let Ok((bytes, meta)) = brx.try_recv() {
                 if let klukai_types::api::QueryEventMeta::Change(id) = meta {
                     if first_new.is_none() {
                         first_new = Some(id.0);
+                    }
+                    if let Ok(QueryEvent::Change(ty, rowid, _cells, _)) = serde_json::from_slice::<QueryEvent>(&bytes) {
+                        new_events.push((format!("{ty:?}"), rowid.0));
                     }
                 }
             }
             if first_new.is_none() {
                 tokio::time::sleep(Duration::from_millis(1)).await;
+            }
+        }
+        // the rest of the batch's events
+        tokio::time::sleep(Duration::from_millis(20)).await;
+        while let Ok((bytes, meta)) = brx.try_recv() {
+            if let klukai_types::api::QueryEventMeta::Change(_) = meta {
+                if let Ok(QueryEvent::Change(ty, rowid, _cells, _)) = serde_json::from_slice::<QueryEvent>(&bytes) {
+                    new_events.push((format!("{ty:?}"), rowid.0));
+                }
+            }
+        }
+        // events of the new life are consistent with the rows the subscription had when it came
+        // back: no insert for a row it already had, no update or delete for a row it never had
+        {
+            let mut known = rowids_before.clone();
+            for (kind, rowid) in &new_events {
+                let key = format!("i:{rowid}");
+                match kind.as_str() {
+                    "Insert" => {
+                        if !known.insert(key) {
+                            viol.push(("C13:insert-event-for-a-row-the-restored-subscription-already-had".to_string(), json!({"rowid": rowid, "events": new_events})));
+                            break;
+                        }
+                    }
+                    "Update" => {
+                        if !known.contains(&key) {
+                            viol.push(("C13:update-event-for-a-row-unknown-to-the-restored-subscription".to_string(), json!({"rowid": rowid, "events": new_events})));
+                            break;
+                        }
+                    }
+                    _ => {
+                        if !known.remove(&key) {
+                            viol.push(("C13:delete-event-for-a-row-unknown-to-the-restored-subscription".to_string(), json!({"rowid": rowid, "events": new_events})));
+                            break;
+                        }
+                    }
+                }
             }
         }
         match first_new {
